@@ -1,14 +1,119 @@
+// bebopcheck decides the static rules of DESIGN.md for one property at a time.
+//
+//	bebopcheck <ID> [--tier quick|thorough] [--repo DIR] [--verif DIR]
+//	bebopcheck replay <path>
+//	bebopcheck calib <dir>         (development only)
 package main
 
 import (
-	_ "golang.org/x/tools/go/callgraph/cha"
-	_ "golang.org/x/tools/go/callgraph/vta"
-	_ "golang.org/x/tools/go/cfg"
-	_ "golang.org/x/tools/go/packages"
-	_ "golang.org/x/tools/go/ssa"
-	_ "golang.org/x/tools/go/ssa/ssautil"
-	_ "golang.org/x/tools/go/types/typeutil"
-	_ "golang.org/x/tools/go/ast/astutil"
+	"encoding/json"
+	"flag"
+	"fmt"
+	"os"
+	"sort"
+
+	"bebopverif/internal/core"
+	"bebopverif/internal/rules"
 )
 
-func main() {}
+func main() {
+	if len(os.Args) < 2 {
+		usage()
+	}
+	cmd := os.Args[1]
+	fs := flag.NewFlagSet("bebopcheck", flag.ExitOnError)
+	tier := fs.String("tier", envOr("VERIF_TIER", "quick"), "quick|thorough")
+	repo := fs.String("repo", envOr("BEBOP_REPO", "/repo"), "bebop checkout to analyse")
+	verif := fs.String("verif", envOr("BEBOP_VERIF", "/verif"), "verif directory (evidence, known findings)")
+	only := fs.String("only", "", "replay: restrict report to this obligation id")
+	args := os.Args[2:]
+	var pos []string
+	for len(args) > 0 && len(args[0]) > 0 && args[0][0] != '-' {
+		pos = append(pos, args[0])
+		args = args[1:]
+	}
+	fs.Parse(args)
+	pos = append(pos, fs.Args()...)
+
+	switch cmd {
+	case "calib":
+		if len(pos) != 1 {
+			usage()
+		}
+		os.Exit(rules.Calib(*repo, pos[0]))
+	case "replay":
+		if len(pos) != 1 {
+			usage()
+		}
+		b, err := os.ReadFile(pos[0])
+		if err != nil {
+			fmt.Println("cannot read replay file:", err)
+			os.Exit(2)
+		}
+		var r struct{ Property, Rule, Key, Tier string }
+		if err := json.Unmarshal(b, &r); err != nil {
+			fmt.Println("bad replay file:", err)
+			os.Exit(2)
+		}
+		if r.Tier == "" {
+			r.Tier = "quick"
+		}
+		os.Exit(run(r.Property, r.Tier, *repo, *verif, r.Rule+" "+r.Key))
+	case "list":
+		ids := rules.IDs()
+		sort.Strings(ids)
+		for _, id := range ids {
+			fmt.Println(id)
+		}
+	default:
+		os.Exit(run(cmd, *tier, *repo, *verif, *only))
+	}
+}
+
+func run(prop, tier, repo, verif, only string) int {
+	fn := rules.Lookup(prop)
+	if fn == nil {
+		fmt.Printf("unknown property %q\n", prop)
+		return 2
+	}
+	if tier != "quick" && tier != "thorough" {
+		fmt.Printf("unknown tier %q\n", tier)
+		return 2
+	}
+	c := core.NewCtx(prop, tier, repo, verif)
+	func() {
+		defer func() {
+			if r := recover(); r != nil {
+				c.Undecide("checker panic: %v", r)
+			}
+		}()
+		fn(c)
+	}()
+	if only != "" {
+		var keep []core.Obl
+		for _, o := range c.Obls {
+			if o.ID() == only {
+				keep = append(keep, o)
+			}
+		}
+		if len(keep) == 0 {
+			fmt.Printf("replay: obligation %q no longer exists on this tree\n", only)
+		}
+		for _, o := range keep {
+			fmt.Printf("replay: %s ok=%v at %s: %s\n", o.ID(), o.OK, o.Pos, o.Msg)
+		}
+	}
+	return c.Finish()
+}
+
+func envOr(k, d string) string {
+	if v := os.Getenv(k); v != "" {
+		return v
+	}
+	return d
+}
+
+func usage() {
+	fmt.Println("usage: bebopcheck <ID>|replay <file>|list [--tier quick|thorough] [--repo DIR]")
+	os.Exit(2)
+}
